@@ -128,6 +128,19 @@ func c11Gen(r *vu.RNG, n int, emit func(string)) {
 			emit("order " + d)
 		}
 	}
+	// wide structs with distinct field values: any exchange of two fields changes the bytes
+	for _, d := range []string{svuWide13, svuWide16, svuWide20, svuNamed16, svuNamed20} {
+		t := svuParseTy(d)
+		parts := make([]string, len(t.fs))
+		for i, f := range t.fs {
+			if f.prim == "bool" {
+				parts[i] = []string{"t", "f"}[i%2]
+			} else {
+				parts[i] = vu.X(uint64(0x11 + i))
+			}
+		}
+		emit("enc " + d + " [" + strings.Join(parts, ",") + "]")
+	}
 	// reused destinations: None / shorter / other-variant values over a destination holding more
 	emit("enc opt(u16) N S7")
 	emit("enc opt(u16) S5 S7")
